@@ -625,11 +625,12 @@ macro_rules! wrap_impl_uint {
                 }
                 fn pingpong(self, upper: Self) -> Self {
                     assert!(upper > Self::zero());
-                    let r = self % (upper+upper);
-                    if r < upper {
+                    // NOTE: `upper+upper` may not fit the type; use the parity of the quotient instead.
+                    let r = self % upper;
+                    if (self / upper) % (Self::one()+Self::one()) == Self::zero() {
                         r
                     } else {
-                        upper+upper-r
+                        upper-r
                     }
                 }
             }
@@ -661,11 +662,15 @@ macro_rules! wrap_impl_sint {
                 }
                 fn pingpong(self, upper: Self) -> Self {
                     assert!(upper > Self::zero());
-                    let r = self.wrapped(upper+upper);
-                    if r <= upper {
+                    // NOTE: `upper+upper` may not fit the type; use the parity of the
+                    // (floored) quotient instead.
+                    let r = self.wrapped(upper);
+                    let odd_quotient = (self / upper) % (Self::one()+Self::one()) != Self::zero();
+                    let floored_down = self % upper < Self::zero();
+                    if odd_quotient == floored_down {
                         r
                     } else {
-                        upper+upper-r
+                        upper-r
                     }
                 }
             }
